@@ -4571,7 +4571,9 @@ func (p *Posix) GetObjectTagging(_ context.Context, bucket, object string) (map[
 
 func (p *Posix) getAttrTags(bucket, object string) (map[string]string, error) {
 	tags := make(map[string]string)
-	if fi, err := os.Stat(filepath.Join(bucket, object)); err == nil && strings.HasSuffix(object, "/") != fi.IsDir() {
+	// (an empty object name: the tags of the bucket itself; a name in the
+	// temp directory: the tags kept with a multipart upload)
+	if fi, err := os.Stat(filepath.Join(bucket, object)); object != "" && !strings.HasPrefix(object, metaTmpDir+"/") && err == nil && strings.HasSuffix(object, "/") != fi.IsDir() {
 		// "key/" is not the file object "key" (and "key" not the directory object "key/")
 		return nil, s3err.GetAPIError(s3err.ErrNoSuchKey)
 	}
@@ -4603,7 +4605,7 @@ func (p *Posix) PutObjectTagging(_ context.Context, bucket, object string, tags 
 		return fmt.Errorf("stat bucket: %w", err)
 	}
 
-	if fi, err := os.Stat(filepath.Join(bucket, object)); err == nil && strings.HasSuffix(object, "/") != fi.IsDir() {
+	if fi, err := os.Stat(filepath.Join(bucket, object)); object != "" && !strings.HasPrefix(object, metaTmpDir+"/") && err == nil && strings.HasSuffix(object, "/") != fi.IsDir() {
 		// "key/" is not the file object "key" (and "key" not the directory object "key/")
 		return s3err.GetAPIError(s3err.ErrNoSuchKey)
 	}
